@@ -135,6 +135,7 @@ class State:
         self.cur_line = None
         self.exc_stack = []
         self.frame_marks = []
+        self.goal_ids = set()
 
     # ---- solver-backed feasibility (quantifier-free part only; unknown counts as feasible)
     def _sync(self):
@@ -233,11 +234,15 @@ class State:
         if isinstance(goal, bool):
             goal = BoolVal(goal)
         self.obls.append(Obligation(name, list(self.pc) + list(self.hyps), goal, tags, self.cur_line, info))
-        # continue the path as if it held (so later failures are reported independently)
+        # continue the path as if it held (so later failures are reported independently); the
+        # assumed goals are remembered so that the vacuity canary can leave them out
+        n1, n2 = len(self.pc), len(self.hyps)
         try:
             self.assume(goal)
         except PathEnd:
             raise PathEnd('obligation %s is false on this path' % name)
+        for f in self.pc[n1:] + self.hyps[n2:]:
+            self.goal_ids.add(f.get_id())
 
     # ---- memory helpers
     def alloc(self, content, prefix='m'):
@@ -628,6 +633,7 @@ class Interp:
             A, Bv = self.bytes_of(a), self.bytes_of(b)
             kind = BYTEARRAY if A.kind == BYTEARRAY else (BYTES if A.kind == BYTES else Bv.kind)
             r = cat(BYTES if kind != BYTEARRAY else BYTEARRAY, [A, Bv])
+            r.meta = dict(concat=(A, Bv))
             return st.alloc(r, 'ba') if r.kind == BYTEARRAY else r
         if op == 'Add' and isinstance(a, SStr) and isinstance(b, SStr):
             return SStr(fresh('strcat', Str))
